@@ -157,12 +157,23 @@ class Case:
 
         def body():
             env = Env(True)
-            out = self.run(env, self._v)
+            try:
+                out = self.run(env, self._v)
+            except (core.Infeasible, core.PathBound):
+                raise
+            except Exception as e:  # noqa -- the code under test (or the engine) raised on this path: decided by replay
+                return ("__raised__", e), None
             return out, self.ref(env, self._v, out)
 
         core.BOUND_HITS[0] = 0
         for pc, (out, ref) in explore(body, maxpaths=self.maxpaths, setup=self._setup, maxdepth=self.maxdepth):
             npaths += 1
+            if isinstance(out, tuple) and len(out) == 2 and out[0] == "__raised__":
+                e = out[1]
+                obs.append(solve.make_ob(f"{self.name}/p{npaths}/raises", [z3.BoolVal(True)], extra=pc, vars=self.var_names(),
+                                         timeout=self.timeout, replay={"case": self.name, "component": "__raises__"},
+                                         desc=f"{self.name}: the code raises {type(e).__name__}: {str(e)[:200]} on this path"))
+                continue
             if self.extra_assumptions:
                 pc = list(pc) + [c.t if isinstance(c, SB) else c for c in self.extra_assumptions(self._v, out)]
             comps = list(_components(out, ref))
@@ -186,6 +197,7 @@ class Case:
                                    desc=self.desc or f"{self.name}: code == reference on component {cname}",
                                    replay=rp)
                 ob["nf_closed"] = bool(nf) and not ob.get("trivial")
+                ob["pins"] = self._pins()
                 obs.append(ob)
             over = []
             for cname, a, b, is_ang in comps:
@@ -195,6 +207,24 @@ class Case:
                     over += [neq(a.cos(), b.cos())] if is_ang else [neq(a, b)]
             obs.append(solve.twin(f"{self.name}/p{npaths}/twin", extra=pc, over=over, timeout=self.timeout))
         return obs, {"paths": npaths, "log": CTX.log[-20:], "unwinding_bound_hits": core.BOUND_HITS[0]}
+
+    def _pins(self):
+        """counterexample-search heuristic for obligations the solver leaves undecided: partial concretisations of the real/int
+        inputs (all but the last one or two), under which the query is re-asked; `sat` there is a genuine counterexample of the
+        original obligation (and is replayed like any other), `unsat` there says nothing"""
+        names = [(spec[0], spec[1]) for spec in self.inputs if spec[1] in ("real", "pos", "int")]
+        if len(names) < 2:
+            return []
+        out = []
+        for variant, free in ((0, 1), (1, 1), (2, 2)):
+            pin = {}
+            for i, (n, kind) in enumerate(names[:len(names) - free]):
+                if kind == "int":
+                    pin[n] = str(1 + (i + variant) % 3)
+                else:
+                    pin[n] = ["%d" % (i + 1), "%d/%d" % (7 * i + 3, 5), "%d/%d" % (13 * (i + 1) + i * i, 11)][variant]
+            out.append(pin)
+        return out
 
     # ---- concrete side
     def concrete_inputs(self, model):
@@ -211,6 +241,10 @@ class Case:
                 a = math.atan2(s, c)
                 if opts.get("lo", "0") == "0":
                     a %= 2 * math.pi
+                elif opts.get("lo") == "free" and f"val_{name}" in model:
+                    # an unrestricted angle: its value (which orders the times derived from it) and its (cos, sin) point are
+                    # independent in the encoding; the replay takes the value, so that the preconditions on times hold
+                    a = _f(model[f"val_{name}"])
                 v[name] = a
             elif kind == "hyp":
                 v[name] = math.asinh(_f(model.get(f"sh_{name}", 0.0)))
@@ -243,7 +277,13 @@ class Case:
                 out = self.run(env, dict(v))
                 ref = self.ref(env, dict(v), out)
             except Exception as e:  # noqa
+                if component == "__raises__":
+                    return {"reproduced": True, "signature": f"{self.signature}: raises {type(e).__name__}",
+                            "detail": f"{self.name}: the real code raises {e!r} at {v}", "inputs": v}
                 tried.append(f"point {idx}: exception {e!r}")
+                continue
+            if component == "__raises__":
+                tried.append(f"point {idx}: no exception")
                 continue
             bad = []
             for cname, a, b, is_ang in _components(out, ref):
